@@ -468,7 +468,16 @@ def _put_one_constant(
     ):
         raise NodeError('Constant.value cannot be negative')
 
+    if isinstance(value, complex) and (value.real or str(value.real)[0] == '-'):  # source would be a BinOp and not a Constant
+        raise NodeError('Constant.value cannot be a complex number with a real part')
+
+    if isinstance(value, (float, complex)) and value != value:  # there is no source for this
+        raise NodeError('Constant.value cannot be nan')
+
     src = repr(value)
+
+    if isinstance(value, (float, complex)):
+        src = src.replace('inf', '1e309')  # same as ast.unparse(), 'inf' would be a Name
     ln, col, end_ln, end_col = self.loc
     lines = self.root._lines
 
